@@ -236,6 +236,12 @@ func routingSweeps(r rm.Router, tier string, lite bool) []sweep {
 		us := rs.PathUniverse(r, tier, true)
 		out = append(out, sweep{"P2", r, pairs(pathAtoms(us)), crossReqs(us.Paths(), us.QMethods, rs.PathSweepHeaders[:1], true)})
 	}
+	if thorough && !lite {
+		ud := rs.DeepUniverse(r)
+		out = append(out, sweep{"P1deep", r, singles(pathAtoms(ud)), crossReqs(ud.Paths(), ud.QMethods, rs.PathSweepHeaders[:1], true)})
+		up := rs.DeepPairUniverse(r)
+		out = append(out, sweep{"P2deep", r, pairs(pathAtoms(up)), crossReqs(up.Paths(), up.QMethods, rs.PathSweepHeaders[:1], true)})
+	}
 	// (H) header sweep: 1-2 routes on one fixed template × full header product
 	hu := rs.QuickHeaders()
 	if thorough {
